@@ -17,9 +17,14 @@ from harness.lib import scen
 from harness.lib.core import VERIF, Ctx, Rng, lean_lock, run_driver, shrink_ops
 from harness.rigs import envrig
 from harness.rigs import isolation as iso
+from harness.rigs import isolation_sched as isd
 
 MANIFEST = {
-    "text": "Lean 4 proof, for a generic process model (any number of environment instances, each with environment-level and per-game "
+    "text": "DEEPENED (see design_notes/C04.md): every episode of an episode-scheduled environment is compared with an environment built "
+            "directly from that episode's scenario (C04_skeleton_scheduled_episode_fresh; shipped and generated scenario folders); every run-time "
+            "write of a readable global must be unconditional (C04_gen_writes_unconditional, C04_conditional_write_counterexample) and precede "
+            "the reads of the same operation (C04_gen_write_order + call-event monitor). "
+            "Lean 4 proof, for a generic process model (any number of environment instances, each with environment-level and per-game "
             "state, one store of process globals, operations = straight-line programs), that under the read/write discipline of the "
             "classification (import-only globals never written; re-written-before-read / RNG globals read only after the same operation "
             "wrote them; sink-only globals read only by logging) EVERY schedule of operations leaves an instance's trajectory and state "
@@ -32,10 +37,12 @@ MANIFEST = {
             "C04_gen_rng_safe_partial). PARTIAL: the code violates the discipline in `step` (F-10 NMNE class attributes, F-11 global RNG): "
             "the full statements are kept as C04_FullSkeletonIsolated / C04_FullGenGlobalsSafe / C04_FullGenRngSafe with proved "
             "counterexamples; that the real step/reset behave like their skeleton is validated by the differential rig only.",
-    "note": "C04-specific: the model abstracts an operation to its global access pattern; within one operation the inventory's write is "
-            "assumed to precede the reads (validated by the rig). File/terminal output (SIM_OUTPUT, pcap loggers) is outside the claim.",
+    "note": "C04-specific: the model abstracts an operation to its global access pattern; within one operation the order write-before-read "
+            "is extracted statically for from_config (calls before the assignment) and observed dynamically (profile monitor), not proved for "
+            "the whole call graph. File/terminal output (SIM_OUTPUT, pcap loggers) is outside the claim.",
     "technique": "Lean 4 non-interference proof over a mini imperative language; regenerated shared-state inventory; differential env rig "
-                 "(dirty history, interleaved instances with channel attribution, object-identity disjointness, scheduler copies)",
+                 "(dirty history, interleaved instances with channel attribution, object-identity disjointness, scheduler copies, "
+                 "episode-schedule freshness against directly constructed environments, operation-order monitor); rig sharded over processes",
     "design_ref": "5/C04",
 }
 MODULES = ["PrimaiteModel.Props.C04"]
@@ -60,8 +67,9 @@ def episodic_dir(name: str) -> Optional[str]:
     src = scen.PKG / name
     if not src.is_dir():
         return None
-    tmp = tempfile.mkdtemp(prefix="c04_")
-    _TMP.append(tmp)
+    tmp = tempfile.mkdtemp(prefix="c04_", dir=_W.get("tmp"))
+    if not _W.get("tmp"):
+        _TMP.append(tmp)
     dst = Path(tmp) / name
     shutil.copytree(src, dst)
     import yaml
@@ -205,17 +213,62 @@ def classvars_at_runtime() -> List[str]:
 
 
 # ---------------------------------------------------------------------------------------------- replay
+def _prepare_replay():
+    global _READ_GLOBALS
+    import primaite.game.game  # noqa: F401
+    if not _READ_GLOBALS:
+        _READ_GLOBALS = read_globals(x_ss.build())
+    iso.pin_opaque_widths()
+
+
 def _run_interleaving(rp: dict) -> dict:
     sched = [tuple(x) for x in rp["schedule"]]
     cfg_a = rp["cfg_a"] if "cfg_a" in rp else _variant(rp["a"])   # corpus files name the scenarios, replay files carry them
     cfg_b = rp["cfg_b"] if "cfg_b" in rp else _variant(rp["b"])
-    return iso.interleaving(cfg_a, cfg_b, sched)
+    return iso.interleaving(cfg_a, cfg_b, sched, globals_fp=globals_fp)
+
+
+def _write_folder(files: Dict[str, str]) -> str:
+    tmp = tempfile.mkdtemp(prefix="c04f_", dir=_W.get("tmp"))
+    if not _W.get("tmp"):
+        _TMP.append(tmp)
+    for fn, text in files.items():
+        (Path(tmp) / fn).write_text(text)
+    return tmp
+
+
+def _run_sched_replay(rp: dict) -> dict:
+    folder = _write_folder(rp["files"])
+    return isd.schedule_freshness(folder, Rng(0), len(rp["plan"]) - 1, 0, globals_fp=globals_fp, only=rp.get("only"), plan=rp["plan"])
+
+
+def _intkeys(o: Any) -> Any:
+    """JSON turned the integer keys of a scenario (action maps, ACL positions, port numbers) into strings: undo"""
+    if isinstance(o, dict):
+        return {(int(k) if isinstance(k, str) and k.lstrip("-").isdigit() else k): _intkeys(v) for k, v in o.items()}
+    if isinstance(o, list):
+        return [_intkeys(v) for v in o]
+    return o
 
 
 def replay(rec: dict) -> bool:
-    rp = rec["replay"]
+    rp = dict(rec["replay"])
+    for key in ("cfg", "cfg_a", "cfg_b"):
+        if isinstance(rp.get(key), dict):
+            rp[key] = _intkeys(rp[key])
     if rp.get("type") == "interleaving":
-        return _run_interleaving(rp)["diff"] is None
+        _prepare_replay()
+        r = _run_interleaving(rp)
+        if rp.get("channel") == "own-build-does-not-rewrite-globals":
+            return r.get("own_globals") is None
+        return r["diff"] is None
+    if rp.get("type") == "schedule-freshness":
+        _prepare_replay()
+        return not _run_sched_replay(rp)["diffs"]
+    if rp.get("type") == "operation-order":
+        _prepare_replay()
+        from harness.rigs import isolation_order as iord
+        return not iord.monitor_build(rp["cfg"], _READ_GLOBALS, x_ss.build(), lean_roles())["problems"]
     if rp.get("type") == "dirty-history":
         if not isinstance(rp["cfg"], dict):
             return False  # scenario directory copied to a temporary place: re-run the check instead
@@ -256,8 +309,122 @@ def _shrink_schedule(cfg_a, cfg_b, schedule, channels) -> List[Tuple]:
     return shrink_ops(list(schedule), fails, budget=14)
 
 
-# ---------------------------------------------------------------------------------------------- the run
+# ---------------------------------------------------------------------------------------------- committed role table (single source: Props/C04.lean)
+_ROLE_RE = None
+
+
+def lean_roles() -> Dict[str, Tuple[List[str], bool]]:
+    """function -> (phases, sink) as committed in Props/C04.lean (`committedFns`); the rig derives from it which run-time written globals
+    an operation may READ (the ones whose value must not depend on earlier episodes / other instances)"""
+    import re
+    text = (VERIF / "lean" / "PrimaiteModel" / "Props" / "C04.lean").read_text()
+    out = {}
+    for m in re.finditer(r'⟨"([^"]+)",\s*(allPhases|\[[^\]]*\]),\s*(true|false)⟩', text):
+        ph = ["construct", "reset", "step"] if m.group(2) == "allPhases" else re.findall(r"\.(\w+)", m.group(2))
+        out[m.group(1)] = (ph, m.group(3) == "true")
+    return out
+
+
+_READ_GLOBALS: List[str] = []
+
+
+def read_globals(inv) -> List[str]:
+    """inventory entries that are written at run time and read by a non-sink function in some operation (derive = shared / rewrittenBeforeRead)"""
+    roles = lean_roles()
+    out = []
+    for name, e in sorted(inv.entries.items()):
+        if not e["writers"] or e["kind"] == "module-logger":
+            continue
+        if not any(roles.get(w, ([], True))[0] for w in e["writers"]):
+            continue   # written by no environment operation (CLI, import time)
+        if any(roles.get(r, ([], True))[0] and not roles.get(r, ([], True))[1] for r in e["readers"]):
+            out.append(name)
+    return out
+
+
+def globals_fp() -> Dict[str, str]:
+    return {n: _finger(_resolve(n)) for n in _READ_GLOBALS}
+
+
+# ---------------------------------------------------------------------------------------------- recorder used by the (possibly forked) workers
+class Rec:
+    """the part of Ctx's surface that the case functions use; filled in a worker process, merged into the Ctx in unit order"""
+
+    def __init__(self, tier: str):
+        self.tier = tier
+        self.hist: Dict[str, int] = {}
+        self.cases: List[Tuple[Any, bool]] = []
+        self.violations: List[Tuple[dict, str, dict]] = []
+        self.obligations: List[Tuple[str, str, bool, str]] = []
+        self.samples: List[Any] = []
+        self.notes: List[str] = []
+        self.traces = 0
+        self.model_lines: List[str] = []
+        self.expectations: List[Tuple[str, Any]] = []
+        self.changed_globals: Dict[str, Tuple[str, str]] = {}
+        self.wall = 0.0
+
+    @property
+    def thorough(self) -> bool:
+        return self.tier == "thorough"
+
+    def scale(self, q: int, t: int) -> int:
+        return t if self.thorough else q
+
+    def count(self, key: str, n: int = 1):
+        self.hist[key] = self.hist.get(key, 0) + n
+
+    def case(self, canonical: Any, nontrivial: bool):
+        self.cases.append((canonical, nontrivial))
+
+    def violation(self, sig: dict, what: str, replay: dict):
+        self.violations.append((sig, what, replay))
+
+    def oblige(self, name: str, kind: str, ok: bool, detail: str = ""):
+        self.obligations.append((name, kind, bool(ok), detail))
+
+    def sample(self, s: Any, cap: int = 6):
+        self.samples.append((s, cap))
+
+    def merge_into(self, ctx: Ctx, model_lines: List[str], expectations: List[Tuple[str, Any]]):
+        for k, n in self.hist.items():
+            ctx.count(k, n)
+        for c, nt in self.cases:
+            ctx.case(c, nt)
+        for v in self.violations:
+            ctx.violation(*v)
+        for o in self.obligations:
+            ctx.oblige(*o)
+        for s, cap in self.samples:
+            ctx.sample(s, cap=24)
+        ctx.notes += self.notes
+        ctx.cov["traces_validated_against_impl"] += self.traces
+        model_lines += self.model_lines
+        expectations += self.expectations
+
+
+_W: Dict[str, Any] = {}   # set in the parent before the pool is forked: tier, inventory snapshot of the import-only globals, run temp dir
+
+
+def _exec_unit(unit: dict) -> Rec:
+    import time
+    t0 = time.time()
+    rec = Rec(_W["tier"])
+    try:
+        {"corpus": _do_corpus, "dirty": _do_dirty, "pair": _do_pair, "sched": _do_sched, "order": _do_order}[unit["kind"]](rec, unit)
+    except Exception as e:   # a unit the harness itself cannot run is a broken correspondence obligation, not a silent skip
+        import traceback
+        rec.oblige(f"rig: unit {unit['kind']}:{unit.get('label', '')} ran", "correspondence", False, traceback.format_exc()[-1500:])
+    after = snapshot_import_only(_W["inv"])
+    for n, v in _W["before"].items():
+        if after.get(n) != v:
+            rec.changed_globals[n] = (v[:300], str(after.get(n))[:300])
+    rec.wall = time.time() - t0
+    return rec
+
+
 def run(ctx: Ctx):
+    global _READ_GLOBALS
     with lean_lock():
         ctx.extract("SharedState", x_ss.emit)
         ctx.extract("IsolationReset", x_ir.emit)
@@ -266,7 +433,9 @@ def run(ctx: Ctx):
                        "step (observation, reward, flags, every agent's action/request/response, whole describe_state) is one evaluation. "
                        "(b) one case = scenario pair x random schedule of construct/reset/step/close of B around A's operations; every A-step is "
                        "one evaluation; non-trivial = a step whose action is not do-nothing or that follows an operation of B. "
-                       "distinct = by digest of A's canonical trajectory and the schedule")
+                       "(e) one case = scenario folder x plan (seed and actions per episode); every compared record of every episode k>=1 "
+                       "(long-lived environment vs environment constructed directly from episode k's scenario) is one evaluation. "
+                       "distinct = by digest of the canonical trajectory and the schedule")
     inv = x_ss.build()
     ctx.cov["inventory"] = {"entries": len(inv.entries), "runtime_written": sorted(n for n, e in inv.entries.items() if e["writers"]),
                             "rng_use_sites": len(set(inv.rng)), "pydantic_mutable_defaults": len(set(inv.pyd_defaults)),
@@ -278,108 +447,39 @@ def run(ctx: Ctx):
     missing = [n for n in rt if n not in inv.entries]
     ctx.oblige("extractor cross-check: every ClassVar of the loaded classes is an inventory entry", "extractor", not missing, f"missing: {missing[:8]}")
     ctx.cov["classvars_seen_at_runtime"] = len(rt)
+    _READ_GLOBALS = read_globals(inv)
+    ctx.cov["readable_runtime_written_globals"] = list(_READ_GLOBALS)
+    ctx.oblige("rig: the role table of Props/C04.lean could be read (readable run-time written globals found)", "correspondence",
+               bool(lean_roles()), f"{len(lean_roles())} roles")
     before = snapshot_import_only(inv)
     iso.pin_opaque_widths()
+    run_tmp = tempfile.mkdtemp(prefix="c04run_")
+    _TMP.append(run_tmp)
+    _W.update({"tier": ctx.tier, "inv": inv, "before": before, "tmp": run_tmp})
 
     rng = ctx.rng.fork("c04")
+    units = _build_units(ctx, rng)
+    n_workers = int(os.environ.get("C04_WORKERS", "0") or 0) or (12 if ctx.thorough else 4)
+    n_workers = max(1, min(n_workers, len(units), (os.cpu_count() or 2)))
+    ctx.cov["units"] = len(units)
+    ctx.cov["worker_processes"] = n_workers
+    if n_workers == 1:
+        recs = [_exec_unit(u) for u in units]
+    else:
+        import multiprocessing as mp
+        order = sorted(range(len(units)), key=lambda i: -units[i].get("weight", 1))   # longest first; results are merged in unit order
+        with mp.get_context("fork").Pool(n_workers, maxtasksperchild=4) as pool:
+            got = pool.map(_exec_unit, [units[i] for i in order], chunksize=1)
+        recs = [None] * len(units)
+        for i, r in zip(order, got):
+            recs[i] = r
     model_lines: List[str] = []
     expectations: List[Tuple[str, Any]] = []   # (kind, payload) per model line
-
-    # ---------------- corpus / known-finding witnesses first
-    for f in sorted(CORPUS.glob("*.json")):
-        rec = json.loads(f.read_text())
-        rp = rec["replay"]
-        if rp.get("type") == "interleaving":
-            cfg_a, cfg_b = _variant(rp["a"]), _variant(rp["b"])
-            if cfg_a is None or cfg_b is None:
-                ctx.notes.append(f"corpus {f.name}: scenario missing")
-                continue
-            sched = [tuple(x) for x in rp["schedule"]]
-            _interleaving_case(ctx, f"corpus:{f.stem}", rp["a"], rp["b"], cfg_a, cfg_b, sched, model_lines, expectations, shrink=False)
-            ctx.count("corpus-witness")
-
-    # ---------------- (a) dirty history, (c) identity, (d) scheduler
-    allowed = None
-    for label, cfg, maker in _dirty_cases(ctx, rng):
-        n_dirty, n_later = ctx.scale(30, 70), ctx.scale(16, 40)
-        episodes = rng.range(1, 3)
-        seed = rng.below(2 ** 31)
-        try:
-            r = iso.dirty_history(cfg, rng.fork("dh" + label), n_dirty, n_later, episodes, seed, make=maker)
-        except Exception as e:
-            ctx.notes.append(f"dirty-history {label}: not runnable: {type(e).__name__}: {str(e)[:120]}")
-            ctx.count("dirty:not-runnable")
-            continue
-        ctx.count("dirty:case")
-        ctx.cov["traces_validated_against_impl"] += 1
-        for i, op in enumerate(r["later"]):
-            ctx.case({"k": "dirty", "sc": label, "d": r["digest"], "i": i}, op[0] == "reset" or op[1] != 0)
-        ctx.count("dirty:history-ops", len(r["history"]))
-        for key, n in r.get("dirtied", {}).items():
-            ctx.count("dirty:" + key, n)
-        if r["diff"] is not None:
-            d = r["diff"]
-            ctx.violation({"kind": "reset-not-fresh", "component": d["component"], "where": "/".join(str(d.get("path", "")).split("/")[:4])},
-                          f"{label}: after {episodes} dirty episode(s), reset(seed={seed}) + the same actions differ from a fresh environment at "
-                          f"record {d['index']} in {d['component']} {d.get('path', '')}: used={d.get('a')} fresh={d.get('b')}",
-                          {"type": "dirty-history", "scenario": label, "cfg": cfg if isinstance(cfg, dict) else str(cfg), "history":
-                           [list(x) for x in r["history"]], "later": [list(x) for x in r["later"]], "diff": d})
-        # model: used = instance 0, fresh = instance 1, same environment-level attributes
-        sched_flag = 0 if isinstance(cfg, dict) else 1
-        rngflag = int(iso.uses_global_rng(cfg)) if isinstance(cfg, dict) else 1
-        lines = ["reset", f"new 0 7 1 0 {rngflag} {sched_flag}", f"new 1 7 1 0 {rngflag} {sched_flag}", "ev 0 constructns 0"]
-        for op in r["history"]:
-            lines.append("ev 0 resetns 0" if op[0] == "reset" else f"ev 0 step {op[1] % 1000}")
-        later_lines = [f"ev X reset {r['later'][0][1] % 100000}"] + [f"ev X step {op[1] % 1000}" for op in r["later"][1:]]
-        lines += [l.replace("X", "0") for l in later_lines]
-        lines += ["ev 1 constructns 0"] + ["ev 1 resetns 0"] * (episodes - 1) + [l.replace("X", "1") for l in later_lines]
-        lines.append(f"cmptail 0 1 {len(later_lines)}")
-        model_lines += lines
-        expectations += [("skip", None)] * (len(lines) - 1) + [("dirty", (label, r["diff"] is None))]
-        # (c) identity disjointness: old game vs new game of the used environment; used vs fresh environment
-        if allowed is None:
-            allowed = iso.import_time_objects()
-        for what, x, y in (("old-vs-new game of one environment", r["old_game"], r["used"].game),
-                           ("games of two environments", r["used"].game, r["fresh"].game),
-                           ("environment objects", r["used"], r["fresh"])):
-            sh = iso.shared_objects(x, y, allowed)
-            ctx.count("identity:pairs-checked")
-            ctx.case({"k": "identity", "sc": label, "what": what}, True)
-            if sh:
-                ctx.violation({"kind": "shared-mutable-object", "what": what, "type": sh[0]},
-                              f"{label}: {len(sh)} mutable objects are reachable from both {what}: {sorted(set(sh))[:6]}",
-                              {"type": "identity", "scenario": label, "what": what, "types": sorted(set(sh))[:40]})
-        # the only import-time objects a game may point at are the AirSpaceFrequency constants
-        from primaite.simulator.network.airspace import AirSpaceFrequency
-        freq = iso.reachable(AirSpaceFrequency._registry)
-        g = iso.reachable(r["used"].game)
-        stray = sorted({f"{type(o).__module__}.{type(o).__qualname__}" for i, o in g.items() if i in allowed and i not in freq})
-        ctx.oblige(f"identity[{label}]: a game references no import-time mutable object except AirSpaceFrequency constants", "correspondence",
-                   not stray, f"{stray[:10]}")
-        # (d) scheduler
-        probs = iso.scheduler_copies(r["used"], [0, 1, r["used"].episode_counter])
-        ctx.count("scheduler:checked")
-        for p in probs:
-            ctx.violation({"kind": "scheduler-shares-state", "what": p.split(" ")[0]}, f"{label}: {p}", {"type": "scheduler", "scenario": label, "problem": p})
-        ctx.sample({"rig": "dirty-history", "scenario": label, "dirty_episodes": episodes, "history_ops": len(r["history"]),
-                    "later_ops": len(r["later"]), "equal": r["diff"] is None}, cap=8)
-        for e in (r["used"], r["fresh"]):
-            try:
-                e.close()
-            except Exception:
-                pass
-
-    # ---------------- (b) interleaved instances
-    for label_a, label_b, cfg_a, cfg_b in _pairs(ctx, rng):
-        try:
-            ea, eb = scen.make_env(cfg_a), scen.make_env(cfg_b)
-            sa, sb = int(ea.action_space.n), int(eb.action_space.n)
-        except Exception as e:
-            ctx.notes.append(f"pair {label_a}/{label_b}: not constructible: {type(e).__name__}: {str(e)[:100]}")
-            continue
-        for rep in range(ctx.scale(1, 3)):
-            sched = iso.gen_schedule(rng.fork(f"{label_a}{label_b}{rep}"), ctx.scale(18, 45), sa, sb, rng.chance(1, 2))
-            _interleaving_case(ctx, f"{label_a}|{label_b}", label_a, label_b, cfg_a, cfg_b, sched, model_lines, expectations, shrink=True)
+    changed: Dict[str, Tuple[str, str]] = {}
+    for u, r in zip(units, recs):
+        r.merge_into(ctx, model_lines, expectations)
+        changed.update(r.changed_globals)
+    ctx.cov["unit_wall_s"] = {f"{u['kind']}:{u.get('label', '')}": round(r.wall, 1) for u, r in zip(units, recs)}
 
     # ---------------- the model's verdicts
     out = run_driver(EXE, model_lines) if model_lines else []
@@ -398,6 +498,14 @@ def run(ctx: Ctx):
             if ans != "same":   # the proved model says reset(seed) erases every history: the driver must agree with the theorem
                 bad += 1
                 ctx.oblige(f"model[{label}]: reset(seed) after a history equals reset(seed) on a fresh instance", "correspondence", False, ans)
+        elif kind == "sched":
+            label, impl_same = payload
+            ctx.count("model:sched-" + ans)
+            if ans == "same" and not impl_same:
+                bad += 1
+            if ans != "same":   # C04_skeleton_scheduled_episode_fresh: the driver must agree with the theorem
+                bad += 1
+                ctx.oblige(f"model[{label}]: episode k of a scheduled instance equals the episode of an instance built from scenario k", "correspondence", False, ans)
         elif kind == "astep":
             label, idx, impl_same, replay_info = payload
             verdict = ans.split(" ")[0]
@@ -409,13 +517,142 @@ def run(ctx: Ctx):
     ctx.oblige("rig:R-env whenever the proved model predicts an unaffected operation the implementation agrees", "correspondence", bad == 0,
                f"{bad} disagreements")
 
-    after = snapshot_import_only(inv)
-    changed = sorted(n for n in before if before[n] != after.get(n))
     ctx.oblige("import-only globals of the inventory are unchanged after every operation run by the rig", "correspondence", not changed,
-               f"changed: {changed[:6]}")
-    for n in changed[:3]:
+               f"changed: {sorted(changed)[:6]}")
+    for n in sorted(changed)[:3]:
         ctx.violation({"kind": "import-only-global-mutated", "name": n}, f"{n} is classified import-only but changed while environments ran",
-                      {"type": "global-mutated", "name": n, "before": before[n][:300], "after": after[n][:300]})
+                      {"type": "global-mutated", "name": n, "before": changed[n][0], "after": changed[n][1]})
+
+
+# ---------------------------------------------------------------------------------------------- units
+def _build_units(ctx: Ctx, rng: Rng) -> List[dict]:
+    units: List[dict] = []
+    for f in sorted(CORPUS.glob("*.json")):
+        units.append({"kind": "corpus", "label": f.stem, "file": str(f), "weight": 2})
+    for label, spec in _dirty_specs(ctx, rng):
+        units.append({"kind": "dirty", "label": label, **spec, "episodes": rng.range(1, 3), "seed": rng.below(2 ** 31), "rng": rng.fork("dh" + label),
+                      "weight": 30 if ("uc7" in label or "multi_lan" in label) else 8})
+    for label_a, label_b, cfg_a, cfg_b in _pairs(ctx, rng):
+        for rep in range(ctx.scale(1, 3)):
+            units.append({"kind": "pair", "label": f"{label_a}|{label_b}#{rep}", "la": label_a, "lb": label_b, "cfg_a": cfg_a, "cfg_b": cfg_b,
+                          "rng": rng.fork(f"{label_a}{label_b}{rep}"), "b_first": rng.chance(1, 2), "weight": 25 if "uc7" in label_a + label_b else 10})
+    units += _sched_units(ctx, rng.fork("sched"))
+    units += [{"kind": "order", "label": f"order-{i}", "which": i % 3, "rng": rng.fork(f"order{i}"), "weight": 6} for i in range(ctx.scale(3, 9))]
+    return units
+
+
+def _do_corpus(rec: Rec, unit: dict):
+    f = Path(unit["file"])
+    rp = json.loads(f.read_text())["replay"]
+    if rp.get("type") == "interleaving":
+        cfg_a, cfg_b = _variant(rp["a"]), _variant(rp["b"])
+        if cfg_a is None or cfg_b is None:
+            rec.notes.append(f"corpus {f.name}: scenario missing")
+            return
+        sched = [tuple(x) for x in rp["schedule"]]
+        _interleaving_case(rec, f"corpus:{f.stem}", rp["a"], rp["b"], cfg_a, cfg_b, sched, rec.model_lines, rec.expectations, shrink=False)
+        rec.count("corpus-witness")
+    elif rp.get("type") == "schedule-freshness":
+        _sched_case(rec, f"corpus:{f.stem}", rp, shrink=False)
+        rec.count("corpus-witness")
+
+
+_ALLOWED = None
+
+
+def _do_dirty(ctx: Rec, unit: dict):
+    """(a) dirty history, (c) identity, (d) scheduler"""
+    global _ALLOWED
+    label, rng = unit["label"], unit["rng"]
+    if unit.get("dir"):
+        cfg, maker = episodic_dir(unit["dir"]), make_env_path
+    else:
+        cfg, maker = _load(unit["scenario"]), scen.make_env
+        if cfg is not None and unit.get("aug") is not None:
+            cfg = _aug(cfg, unit["aug"][0], unit["aug"][1])
+    if cfg is None:
+        ctx.notes.append(f"dirty-history {label}: scenario missing")
+        return
+    n_dirty, n_later = ctx.scale(30, 70), ctx.scale(16, 40)
+    episodes, seed = unit["episodes"], unit["seed"]
+    try:
+        r = iso.dirty_history(cfg, rng, n_dirty, n_later, episodes, seed, make=maker)
+    except Exception as e:
+        ctx.notes.append(f"dirty-history {label}: not runnable: {type(e).__name__}: {str(e)[:120]}")
+        ctx.count("dirty:not-runnable")
+        return
+    ctx.count("dirty:case")
+    ctx.traces += 1
+    for i, op in enumerate(r["later"]):
+        ctx.case({"k": "dirty", "sc": label, "d": r["digest"], "i": i}, op[0] == "reset" or op[1] != 0)
+    ctx.count("dirty:history-ops", len(r["history"]))
+    for key, n in r.get("dirtied", {}).items():
+        ctx.count("dirty:" + key, n)
+    if r["diff"] is not None:
+        d = r["diff"]
+        ctx.violation({"kind": "reset-not-fresh", "component": d["component"], "where": "/".join(str(d.get("path", "")).split("/")[:4])},
+                      f"{label}: after {episodes} dirty episode(s), reset(seed={seed}) + the same actions differ from a fresh environment at "
+                      f"record {d['index']} in {d['component']} {d.get('path', '')}: used={d.get('a')} fresh={d.get('b')}",
+                      {"type": "dirty-history", "scenario": label, "cfg": cfg if isinstance(cfg, dict) else str(cfg), "history":
+                       [list(x) for x in r["history"]], "later": [list(x) for x in r["later"]], "diff": d})
+    # model: used = instance 0, fresh = instance 1, same environment-level attributes
+    sched_flag = 0 if isinstance(cfg, dict) else 1
+    rngflag = int(iso.uses_global_rng(cfg)) if isinstance(cfg, dict) else 1
+    lines = ["reset", f"new 0 7 1 0 {rngflag} {sched_flag}", f"new 1 7 1 0 {rngflag} {sched_flag}", "ev 0 constructns 0"]
+    for op in r["history"]:
+        lines.append("ev 0 resetns 0" if op[0] == "reset" else f"ev 0 step {op[1] % 1000}")
+    later_lines = [f"ev X reset {r['later'][0][1] % 100000}"] + [f"ev X step {op[1] % 1000}" for op in r["later"][1:]]
+    lines += [l.replace("X", "0") for l in later_lines]
+    lines += ["ev 1 constructns 0"] + ["ev 1 resetns 0"] * (episodes - 1) + [l.replace("X", "1") for l in later_lines]
+    lines.append(f"cmptail 0 1 {len(later_lines)}")
+    ctx.model_lines += lines
+    ctx.expectations += [("skip", None)] * (len(lines) - 1) + [("dirty", (label, r["diff"] is None))]
+    # (c) identity disjointness: old game vs new game of the used environment; used vs fresh environment
+    if _ALLOWED is None:
+        _ALLOWED = iso.import_time_objects()
+    allowed = _ALLOWED
+    for what, x, y in (("old-vs-new game of one environment", r["old_game"], r["used"].game),
+                       ("games of two environments", r["used"].game, r["fresh"].game),
+                       ("environment objects", r["used"], r["fresh"])):
+        sh = iso.shared_objects(x, y, allowed)
+        ctx.count("identity:pairs-checked")
+        ctx.case({"k": "identity", "sc": label, "what": what}, True)
+        if sh:
+            ctx.violation({"kind": "shared-mutable-object", "what": what, "type": sh[0]},
+                          f"{label}: {len(sh)} mutable objects are reachable from both {what}: {sorted(set(sh))[:6]}",
+                          {"type": "identity", "scenario": label, "what": what, "types": sorted(set(sh))[:40]})
+    # the only import-time objects a game may point at are the AirSpaceFrequency constants
+    from primaite.simulator.network.airspace import AirSpaceFrequency
+    freq = iso.reachable(AirSpaceFrequency._registry)
+    g = iso.reachable(r["used"].game)
+    stray = sorted({f"{type(o).__module__}.{type(o).__qualname__}" for i, o in g.items() if i in allowed and i not in freq})
+    ctx.oblige(f"identity[{label}]: a game references no import-time mutable object except AirSpaceFrequency constants", "correspondence",
+               not stray, f"{stray[:10]}")
+    # (d) scheduler
+    probs = iso.scheduler_copies(r["used"], [0, 1, r["used"].episode_counter])
+    ctx.count("scheduler:checked")
+    for p in probs:
+        ctx.violation({"kind": "scheduler-shares-state", "what": p.split(" ")[0]}, f"{label}: {p}", {"type": "scheduler", "scenario": label, "problem": p})
+    ctx.sample({"rig": "dirty-history", "scenario": label, "dirty_episodes": episodes, "history_ops": len(r["history"]),
+                "later_ops": len(r["later"]), "equal": r["diff"] is None}, cap=8)
+    for e in (r["used"], r["fresh"]):
+        try:
+            e.close()
+        except Exception:
+            pass
+
+
+def _do_pair(ctx: Rec, unit: dict):
+    """(b) interleaved instances"""
+    cfg_a, cfg_b = unit["cfg_a"], unit["cfg_b"]
+    try:
+        ea, eb = scen.make_env(cfg_a), scen.make_env(cfg_b)
+        sa, sb = int(ea.action_space.n), int(eb.action_space.n)
+    except Exception as e:
+        ctx.notes.append(f"pair {unit['label']}: not constructible: {type(e).__name__}: {str(e)[:100]}")
+        return
+    sched = iso.gen_schedule(unit["rng"], ctx.scale(18, 45), sa, sb, unit["b_first"])
+    _interleaving_case(ctx, f"{unit['la']}|{unit['lb']}", unit["la"], unit["lb"], cfg_a, cfg_b, sched, ctx.model_lines, ctx.expectations, shrink=True)
 
 
 def _variant(spec: Dict) -> Optional[Dict]:
@@ -432,25 +669,25 @@ def _variant(spec: Dict) -> Optional[Dict]:
     return cfg
 
 
-def _dirty_cases(ctx: Ctx, rng: Rng):
+def _dirty_specs(ctx: Ctx, rng: Rng):
+    """(label, spec) of the dirty-history cases; the scenario (and its generated action map) is built by the worker that runs the case"""
     names = ["data_manipulation", "basic_firewall", "wireless_wan_network_config"]
     if ctx.thorough:
         names += ["uc7_config", "dmz_network", "basic_switched_network", "test_primaite_session", "multi_lan_internet_network_example",
                   "firewall_actions_network", "install_and_configure_apps"]
+    sh = scen.shipped()
     first = True
     for name in names:
-        cfg = _load(name)
-        if cfg is None:
+        if name not in sh:
             continue
         if first:
-            yield name + "/shipped-map", cfg, scen.make_env
+            yield name + "/shipped-map", {"scenario": name, "aug": None}
             first = False
         for v in range(ctx.scale(1, 2)):
-            yield f"{name}/generated-map-{v}", _aug(cfg, rng.fork(f"aug{name}{v}"), ctx.scale(50, 120)), scen.make_env
+            yield f"{name}/generated-map-{v}", {"scenario": name, "aug": (rng.fork(f"aug{name}{v}"), ctx.scale(50, 120))}
     for d in (["scenario_with_placeholders"] + (["mini_scenario_with_simulation_variation"] if ctx.thorough else [])):
-        p = episodic_dir(d)
-        if p:
-            yield f"{d}/episodic", p, make_env_path
+        if (scen.PKG / d).is_dir():
+            yield f"{d}/episodic", {"dir": d}
 
 
 def _pairs(ctx: Ctx, rng: Rng):
@@ -465,6 +702,11 @@ def _pairs(ctx: Ctx, rng: Rng):
         a = _aug(strip_rng(uc2), rng.fork("pA"), ctx.scale(40, 90))
         out.append(("uc2-norng", "uc2-thresholds", a, set_thresholds(uc2, TH)))
         out.append(("uc2-norng", "firewall-nmne-same", a, set_nmne(fw, uc2["simulation"]["network"]["nmne_config"])))
+        # A's scenario has NO nmne_config section, B's captures: what A sees right after its OWN construction / reset must not depend on B
+        # (own-build oracle; not F-10, which is about B overwriting what A reads later)
+        nosec = copy.deepcopy(fw)
+        nosec.get("simulation", {}).get("network", {}).pop("nmne_config", None)
+        out.append(("firewall-no-nmne-section", "uc2-captures", _aug(nosec, rng.fork("pN"), 30), uc2))
     if uc2:
         out.append(("uc2", "uc2", uc2, set_seed(uc2, 77)))          # same scenario twice: F-11 territory
     if wl and fw:
@@ -480,16 +722,16 @@ def _pairs(ctx: Ctx, rng: Rng):
     return out
 
 
-def _interleaving_case(ctx: Ctx, label: str, la, lb, cfg_a: Dict, cfg_b: Dict, sched: List[Tuple], model_lines: List[str],
+def _interleaving_case(ctx: "Rec", label: str, la, lb, cfg_a: Dict, cfg_b: Dict, sched: List[Tuple], model_lines: List[str],
                        expectations: List[Tuple[str, Any]], shrink: bool):
     try:
-        r = iso.interleaving(cfg_a, cfg_b, sched)
+        r = iso.interleaving(cfg_a, cfg_b, sched, globals_fp=globals_fp)
     except Exception as e:
         ctx.notes.append(f"interleaving {label}: harness could not run: {type(e).__name__}: {str(e)[:160]}")
         ctx.count("interleave:not-runnable")
         return
     ctx.count("interleave:case")
-    ctx.cov["traces_validated_against_impl"] += 1
+    ctx.traces += 1
     for e in sched:
         ctx.count(f"interleave:op:{e[0]}:{e[1]}")
     same = iso.per_step_same(r["solo"], r["inter"])
@@ -505,6 +747,14 @@ def _interleaving_case(ctx: Ctx, label: str, la, lb, cfg_a: Dict, cfg_b: Dict, s
         prev_b = False
         k += 1
     replay_info = {"type": "interleaving", "a": la, "b": lb, "cfg_a": cfg_a, "cfg_b": cfg_b, "schedule": [list(x) for x in sched], "diff": r["diff"]}
+    ctx.count("interleave:own-globals-checked")
+    if r.get("own_globals") is not None:
+        # not F-10 (B overwrites what A reads): A's OWN construction / reset left process globals that depend on who ran before it
+        og = r["own_globals"]
+        ctx.violation({"kind": "instance-interference", "channel": "own-build-does-not-rewrite-globals"},
+                      f"{label}: right after instance A's own construct/reset #{og['index']} the run-time written globals an operation may read "
+                      f"({', '.join(_READ_GLOBALS)}) are {og['interleaved']} with instance B interleaved but {og['solo']} alone: A's "
+                      f"from_config does not (re)write them from A's scenario", {**replay_info, "channel": "own-build-does-not-rewrite-globals", "own_globals": og})
     if r["diff"] is not None:
         chans = r["channels"]
         ctx.count("interleave:differs:" + "+".join(chans))
@@ -532,3 +782,198 @@ def _interleaving_case(ctx: Ctx, label: str, la, lb, cfg_a: Dict, cfg_b: Dict, s
             expectations.append(("astep", (label, i, same[i], replay_info)))
         else:
             expectations.append(("skip", None))
+
+
+# ---------------------------------------------------------------------------------------------- (e) episode schedules
+def _sched_units(ctx: Ctx, rng: Rng) -> List[dict]:
+    units: List[dict] = []
+    steps = ctx.scale(8, 14)
+    for name, d in envrig.scheduled_dirs().items():
+        n = len(isd.read_folder(d)["entries"])
+        big = n > 8
+        if big and not ctx.thorough:
+            # uc7_multiple_attack_variants (20 entries): quick goes up to the first entry that repeats a file combination
+            units.append({"kind": "sched", "label": f"shipped:{name}[first-repeat]", "dir": name, "episodes": 3, "only": [3], "steps": steps,
+                          "rng": rng.fork(name), "weight": 20})
+        else:
+            units.append({"kind": "sched", "label": f"shipped:{name}", "dir": name, "episodes": n + 2, "only": None, "steps": steps,
+                          "rng": rng.fork(name), "weight": 120 if big else 8})
+    for i in range(ctx.scale(2, 10)):
+        g = {"size": 1 + (i % 3 == 2 and ctx.thorough), "n_topologies": 1 + i % 2, "n_net": 3 + (i // 2) % 2, "n_agents": 2, "extra_entries": 1 + i % 3}
+        units.append({"kind": "sched", "label": f"generated-{i}", "gen": g, "episodes": None, "only": None, "steps": steps, "rng": rng.fork(f"gen{i}"), "weight": 8})
+    return units
+
+
+def _folder_files(folder: str) -> Dict[str, str]:
+    return {p.name: p.read_text() for p in sorted(Path(folder).iterdir()) if p.is_file()}
+
+
+def _do_sched(rec: Rec, unit: dict):
+    rng = unit["rng"]
+    if unit.get("dir"):
+        folder = episodic_dir(unit["dir"])
+    else:
+        folder = str(Path(tempfile.mkdtemp(prefix="c04g_", dir=_W.get("tmp"))) / "scenario")
+        desc = isd.gen_folder(rng.fork("folder"), Path(folder), **unit["gen"])
+        rec.count("sched:generated-folder")
+        for v in desc["nmne"].values():
+            rec.count("sched:variant-nmne:" + ("absent" if v == "<absent>" else "empty" if v == {} else "capture-on" if v.get("capture_nmne") else "capture-off"))
+        rec.count("sched:generated-topologies", len(desc["topologies"]))
+    files = _folder_files(folder)
+    n = len(isd.read_folder(folder)["entries"])
+    k_max = unit["episodes"] or (n + 2)
+    # the plan (seed and actions of every episode) is drawn here so that the replay record carries it
+    plan = []
+    for k in range(k_max + 1):
+        r = rng.fork(f"ep{k}")
+        plan.append({"seed": r.below(2 ** 31), "acts": [0 if r.chance(1, 6) else r.below(2 ** 16) for _ in range(unit["steps"] if k else max(2, unit["steps"] // 2))]})
+    _sched_case(rec, unit["label"], {"files": files, "plan": plan, "only": unit.get("only")}, shrink=True)
+
+
+def _sched_case(rec: Rec, label: str, rp: dict, shrink: bool):
+    try:
+        r = _run_sched_replay(rp)
+    except Exception as e:
+        import traceback
+        rec.oblige(f"rig: schedule-freshness case {label} ran", "correspondence", False, traceback.format_exc()[-1200:])
+        return
+    rec.count("sched:case")
+    rec.traces += 1
+    entries = r["entries"]
+    n = len(entries)
+    rec.count("sched:episodes-compared", len(r["compared"]))
+    rec.count("sched:resets-beyond-schedule", sum(1 for k in r["compared"] if k >= n))
+    rec.count("sched:episodes-repeating-a-file-combination", sum(1 for k in r["compared"] if entries[k % n] in [entries[j % n] for j in range(k)]))
+    rec.count("sched:operations-that-raised", r["raised"])
+    for key, c in r["dirt"].items():
+        rec.count("sched:" + key, c)
+    for k in r["compared"]:
+        for i in range(len(rp["plan"][k]["acts"]) + 1):
+            rec.case({"k": "sched", "sc": label, "d": r["digests"][k], "ep": k, "i": i}, True)
+    # a difference caused by the past is reproducible: run the differing episode's comparison once more. A difference that does not come
+    # back at the same place is wall-clock / entropy nondeterminism of a single run (C03's F-9 family), counted and noted, not a C04 verdict
+    confirmed = []
+    for k, d in r["diffs"]:
+        try:
+            again = dict(_run_sched_replay({**rp, "plan": rp["plan"][: k + 1], "only": [k]})["diffs"]).get(k)
+        except Exception:
+            again = d
+        if again is not None and (again["index"], again["component"]) == (d["index"], d["component"]):
+            confirmed.append((k, d))
+        else:
+            rec.count("sched:difference-not-reproducible")
+            rec.notes.append(f"schedule-freshness {label}: episode {k} differed once at record {d['index']} {d['component']} {d.get('path', '')} "
+                             f"({d.get('a')} vs {d.get('b')}) and not when the same comparison was repeated: nondeterminism of one run, not history")
+        if confirmed:
+            break
+    r["diffs"] = confirmed
+    bad = {k for k, _ in r["diffs"]}
+    for k, d in r["diffs"][:1]:
+        small = rp
+        if shrink:
+            try:
+                small = _shrink_sched(rp, k)
+            except Exception:
+                small = {**rp, "only": [k]}
+        rec.violation({"kind": "scheduled-episode-not-fresh", "component": d["component"], "first_use_of_files": d["first_use_of_files"]},
+                      f"{label}: episode {k} (schedule entry {d['entry']}: {d['files']}) reached by {k} reset(s) of one environment differs from a new "
+                      f"environment constructed from that episode's scenario (both reset(seed={rp['plan'][k]['seed']}), same actions) at record "
+                      f"{d['index']} in {d['component']} {d.get('path', '')}: long-lived={d.get('a')} fresh={d.get('b')}"
+                      + (f"; {len(r['diffs'])} of {len(r['compared'])} compared episodes differ" if len(r["diffs"]) > 1 else ""),
+                      {"type": "schedule-freshness", **small, "diff": d, "episode": k})
+    rec.sample({"rig": "schedule-freshness", "folder": label, "entries": n, "episodes": len(rp["plan"]) - 1, "compared": len(r["compared"]),
+                "differ": sorted(bad)}, cap=10)
+    # the model: instance 0 = the long-lived scheduled environment, instance 1 = an environment whose constant scenario is episode k's
+    fd = {"entries": entries, "texts": {fn: rp["files"][fn] for e in entries for fn in e}, "base": rp["files"][_base_name(rp["files"])]}
+    nm = {json.dumps(isd.join_cfg(fd, j).get("simulation", {}).get("network", {}).get("nmne_config", "<absent>"), sort_keys=True) for j in range(n)}
+    var = int(len(nm) > 1)
+    for k in r["compared"][-2:]:
+        lines = ["reset", f"new 0 7 1 0 1 1 {var}", f"new 1 {7 + k} {1 + var * k} 0 1 0 0", "ev 0 constructns 0"]
+        lines += [f"ev 0 step {a % 1000}" for a in rp["plan"][0]["acts"]]
+        for j in range(1, k + 1):
+            lines.append(f"ev 0 reset {rp['plan'][j]['seed'] % 100000}")
+            lines += [f"ev 0 step {a % 1000}" for a in rp["plan"][j]["acts"]]
+        tail = [f"ev 1 reset {rp['plan'][k]['seed'] % 100000}"] + [f"ev 1 step {a % 1000}" for a in rp["plan"][k]["acts"]]
+        lines += ["ev 1 constructns 0"] + tail + [f"cmptail 0 1 {len(tail)}"]
+        rec.model_lines += lines
+        rec.expectations += [("skip", None)] * (len(lines) - 1) + [("sched", (f"{label}#ep{k}", k not in bad))]
+
+
+def _base_name(files: Dict[str, str]) -> str:
+    import yaml
+    return yaml.safe_load(files["schedule.yaml"])["base_scenario"]
+
+
+def _shrink_sched(rp: dict, k: int) -> dict:
+    """smaller schedule that still shows a difference: the two entries (k-1, k) alone, else entries 0..k; then shorter action lists"""
+    import yaml
+    sch = yaml.safe_load(rp["files"]["schedule.yaml"])
+    ents = [sch["schedule"][i] for i in sorted(sch["schedule"])]
+    n = len(ents)
+
+    def fails(c: dict) -> bool:
+        try:
+            return bool(_run_sched_replay(c)["diffs"])
+        except Exception:
+            return False
+
+    def with_schedule(seq: List[List[str]], plan: List[dict]) -> dict:
+        files = dict(rp["files"])
+        files["schedule.yaml"] = yaml.safe_dump({"base_scenario": sch["base_scenario"], "schedule": {i: e for i, e in enumerate(seq)}}, sort_keys=False)
+        used = {fn for e in seq for fn in e} | {"schedule.yaml", sch["base_scenario"]}
+        return {"files": {fn: t for fn, t in files.items() if fn in used}, "plan": plan, "only": [len(plan) - 1]}
+    best = {**rp, "plan": rp["plan"][: k + 1], "only": [k]}
+    for start in ([k - 1] if k >= 1 else []) + ([0] if k > 1 else []):
+        cand = with_schedule([ents[j % n] for j in range(start, k + 1)], rp["plan"][start: k + 1])
+        if fails(cand):
+            best = cand
+            break
+    # shorter action lists: no history actions, then later actions cut
+    for cut in (0, 2):
+        cand = {**best, "plan": [{**p, "acts": p["acts"][:cut]} for p in best["plan"][:-1]] + [best["plan"][-1]]}
+        if fails(cand):
+            best = cand
+            break
+    for cut in (0, 2, 4):
+        cand = {**best, "plan": best["plan"][:-1] + [{**best["plan"][-1], "acts": best["plan"][-1]["acts"][:cut]}]}
+        if fails(cand):
+            best = cand
+            break
+    return best
+
+
+# ---------------------------------------------------------------------------------------------- (g) order inside one operation
+def _do_order(rec: Rec, unit: dict):
+    from harness.rigs import isolation_order as iord
+    rng = unit["rng"]
+    from harness.gen import scenario as gsc
+    choice = unit["which"]
+    if choice == 0:
+        label, cfg = "data_manipulation", _load("data_manipulation")
+    elif choice == 1:
+        label, cfg = "generated", gsc.gen_scenario(rng.fork("g"), size=1)
+    else:
+        label, cfg = "generated-no-nmne-section", gsc.gen_scenario(rng.fork("g"), size=1)
+    if cfg is None:
+        return
+    if choice == 2:
+        cfg["simulation"]["network"].pop("nmne_config", None)
+        for a in cfg["agents"]:
+            for c in a.get("observation_space", {}).get("options", {}).get("components", []):
+                if "include_nmne" in c.get("options", {}):
+                    c["options"]["include_nmne"] = False
+    r = iord.monitor_build(cfg, _READ_GLOBALS, _W["inv"], lean_roles())
+    rec.count("order:operations-monitored", 2)
+    rec.count("order:call-events", r["events"])
+    rec.count("order:reader-calls-after-the-operation's-write", r["reads_after_write"])
+    rec.case({"k": "order", "sc": label, "n": r["events"]}, True)
+    rec.oblige("rig: every non-sink reader function of the readable run-time written globals could be resolved for monitoring", "correspondence",
+               not r["unresolved"], f"{r['unresolved']}")
+    for p in r["problems"][:2]:
+        rec.violation({"kind": "operation-order", "what": p["kind"], "global": p["global"].split(".")[-1]},
+                      f"{label}: in `{p['operation']}` the global {p['global']} is " +
+                      ("read by " + p.get("reader", "?") + " before the operation has written it" if p["kind"] == "read-before-own-write" else
+                       "not written at all: the operation leaves what an earlier episode / another instance installed"),
+                      {"type": "operation-order", "cfg": cfg, "problem": p})
+    rec.sample({"rig": "operation-order", "scenario": label, "call_events": r["events"], "reader_calls_after_write": r["reads_after_write"],
+                "write_at_event": r["write_event"], "readers": r["readers_monitored"]}, cap=10)
